@@ -116,9 +116,16 @@ def run(R, tier, seed, driver_ok):
             n = int(rng.choice([1, 2, 5, 10, 40, 200]))
             same_length = bool(rng.rand() < 0.5)
             case = {'generator': 'positive_negative_pairs', 'labels': y, 'n_constraints': n, 'same_length': same_length, 'seed': sd}
-            with record_constraints() as rec, warnings.catch_warnings(record=True) as wl:
-                warnings.simplefilter('always')
-                a, b, c, d = Constraints(y).positive_negative_pairs(n, same_length=same_length, random_state=sd)
+            try:
+                with record_constraints() as rec, warnings.catch_warnings(record=True) as wl:
+                    warnings.simplefilter('always')
+                    a, b, c, d = Constraints(y).positive_negative_pairs(n, same_length=same_length, random_state=sd)
+            except Exception as e:
+                # pairs of both kinds exist for these labels: fewer (even none) may be found, with a warning, but the
+                # call must return
+                R.case(('c07p', y.tobytes().hex(), n, same_length, sd), True, branch=f'pairs:{kind}')
+                R.violation(f'pairs/raises-{type(e).__name__}', f'positive_negative_pairs raised {type(e).__name__}: {str(e)[:120]} although pairs of both kinds exist', case)
+                continue
             with warnings.catch_warnings():
                 warnings.simplefilter('ignore')
                 a2, b2, c2, d2 = Constraints(y).positive_negative_pairs(n, same_length=same_length, random_state=sd)
